@@ -225,12 +225,15 @@ func init() {
 	register(&propDef{
 		id: "C10", level: "exploration", quickRuns: 128, thoroughRuns: 3000, wallPerRun: 5 * time.Minute,
 		rule:        "A hostile peer holding the valid credential of registered user B emits reference-encoded segment sequences with arbitrary field values against the real server - every protocol type 0..255 incl. wrong-direction and undefined ones, session id 0 / random / its own / ids owned by user A (taken from the tap), arbitrary seq/ack/window/fragment/status/low-entropy fields, inconsistent length fields, payloads up to the limits - on TCP and UDP, in any order; together with the C05 unauthenticated corpus; while user A's genuine sessions run. Oracle: the worker process does not die (a Go panic/fatal is the violation, its first mieru frame the signature) and user A's stream oracle still holds.",
-		assumptions: []string{"SOCKS5 / UDP-associate parser inputs are covered by the socks scenario (C11/C12/C18) crash observation", "hostile servers against a real client are not yet simulated"},
+		assumptions: []string{"SOCKS5 / UDP-associate parser inputs are covered by the socks scenario (C11/C12/C18) crash observation and by the hostile-egress-proxy runs", "hostile servers against a real client are not yet simulated"},
 		components:  realComponents,
 		gen: func(master uint64, idx int, tier string) *spec.RunSpec {
 			seed := runSeed(master, "C10", idx)
 			r := simnet.NewRng(seed, "c10")
 			tr := []string{"tcp", "udp"}[idx%2]
+			if idx%5 == 4 {
+				return c10EgressSpec(seed, r, tr)
+			}
 			s := attackBase("C10", seed, tr, false)
 			// the victim is user 0; the attacker controls the last user
 			for ci := range s.Clients {
@@ -258,4 +261,30 @@ func init() {
 			return s
 		},
 	})
+}
+
+// c10EgressSpec: the production server stack forwards every request to a SOCKS5 egress proxy that
+// misbehaves: resets or closes its control connection before, at or after its reply, answers with
+// garbage, short, malformed or error replies, or says nothing. CONNECT and UDP-ASSOCIATE requests
+// (with datagrams) from two users; the proxy server must survive and keep serving.
+func c10EgressSpec(seed uint64, r *simnet.Rng, tr string) *spec.RunSpec {
+	s := socksBase("C10", seed, r, tr)
+	addClients(s, r, tr, []int{3, 3})
+	s.Socks.Rules = []spec.ERule{{IPRanges: []string{"*"}, Domains: []string{"*"}, Action: "PROXY"}}
+	modes := []string{"", "rst-after-reply", "rst-after-reply", "fin-after-reply", "rst-before-reply", "garbage-reply", "short-reply", "bad-atyp-reply", "error-reply", "huge-domain-reply", "silent"}
+	for i, n := 0, 2+r.Intn(5); i < n; i++ {
+		s.Socks.Egress = append(s.Socks.Egress, spec.EgressBehaviour{Mode: modes[r.Intn(len(modes))], ArgUs: int64(r.Pick(1, 1000, 20000, 300000, 2000000))})
+	}
+	for i, n := 0, 4+r.Intn(8); i < n; i++ {
+		q := spec.SReq{Client: r.Intn(len(s.Clients)), AtUs: int64(i*30000 + r.Intn(10000)), Cmd: r.Pick(1, 3, 3), AType: 1, Host: "93.184.216.34", Port: destTCPPort, Data: r.Pick(0, 1, 500, 5000)}
+		if q.Cmd == 3 {
+			q.Port, q.Host = 0, "0.0.0.0"
+			for j, m := 0, 1+r.Intn(6); j < m; j++ {
+				q.Dgrams = append(q.Dgrams, spec.SDgram{AType: 1, Host: "93.184.216.34", Port: destUDPPort, Size: r.Pick(8, 20, 500, 1200), GapUs: int64(r.Pick(1000, 50000, 400000))})
+			}
+		}
+		s.Socks.Reqs = append(s.Socks.Reqs, q)
+	}
+	s.Profile = "c10-hostile-egress-proxy-" + tr
+	return s
 }
